@@ -313,6 +313,14 @@ trait SocksWriter: AsyncWriteExt + Sized + Unpin {
     async fn write_authentication_message(&mut self, auth: &Authentication) -> Result<(), Error> {
         let buf = match auth {
             Authentication::UsernamePassword(username, password) => {
+                // RFC 1929: both fields are preceded by a one-octet length
+                if username.len() > u8::MAX as usize {
+                    return Err(Error::Protocol("Too long username".to_string()));
+                }
+                if password.len() > u8::MAX as usize {
+                    return Err(Error::Protocol("Too long password".to_string()));
+                }
+
                 let mut buf = MaxStackSmallVec::with_capacity(
                     std::mem::size_of_val(&USERNAME_PASSWORD_AUTHENTICATION_VER)
                         + std::mem::size_of::<u8>()
